@@ -10,6 +10,7 @@
 //   "contents": {"<cid>": {"text": "<file bytes>", ...labels used by the driver only...}},
 //   "init": [["name", cid], ...]      files present before the service is created (null: directory absent)
 //   "probe0": bool                    tick + probe right after construction (start-up order)
+//   "yield_us": n                     (with the hooks only) pause up to n us between reading a file and scheduling it
 //   "mode": "seq" | "par"             seq: ops and ticks in script order on the main thread;
 //                                     par: file ops on a helper thread, main thread ticks continuously
 //   "ops": [{"op":"write","name":n,"cid":c}            open(O_TRUNC|O_CREAT) + write + close
@@ -23,7 +24,7 @@
 // Trace:
 //  {"outcome":"ok","hooks":bool,"probe0":[[inst..]..]|null,"probe":[[inst..]..],"probe_b":[[..]..],
 //   "final_dir":[[name,cid],..]|null,"rc":[0/1 per op],"items":[["add",tag,cid,qlen]|["rem",tag,qlen]|
-//   ["swap",n]|["fail",tag]] (only with the OOMD_VERIF hooks of fixes/C14-hooks.patch), "ticks":n,
+//   ["swap",n]|["fail",tag,cid]] (only with the OOMD_VERIF hooks of fixes/C14-hooks.patch), "ticks":n,
 //   "idle_ok":bool, "fd_leak":n}
 #include "common.h"
 
@@ -143,8 +144,23 @@ extern "C" void oomd_verif_dropin_trace(const char* what, const char* tag, const
     e.append((Json::UInt64)n);
   } else {
     e.append(tag ? tag : "");
+    e.append(cidOfIR(static_cast<const Config2::IR::Root*>(ir)));
   }
   g_items.append(e);
+}
+
+// schedule widening (fixes/C14-hooks.patch): a pseudo-random pause of up to g_yield_us between reading a
+// drop-in file and scheduling it, on whichever thread does the load
+std::atomic<unsigned> g_yield_us{0};
+extern "C" void oomd_verif_dropin_yield(const char*) {
+  g_hooks_seen = true;
+  unsigned m = g_yield_us.load();
+  if (!m) return;
+  thread_local unsigned x = 2463534242u ^ (unsigned)(uintptr_t)&x;
+  x ^= x << 13;
+  x ^= x >> 17;
+  x ^= x << 5;
+  std::this_thread::sleep_for(std::chrono::microseconds(x % m));
 }
 
 namespace {
@@ -393,6 +409,7 @@ void runScenario(const Json::Value& sc, Json::Value& out) {
     g_items = Json::Value(Json::arrayValue);
   }
   g_idle_reliable = true;
+  g_yield_us = sc.get("yield_us", 0).asUInt();
   Ctx c;
   std::string top = vh::freshDir("watcher");
   vh::rmrf(top); // pids are reused (pid_max 32768): a crashed earlier process may have left this very path behind
@@ -516,14 +533,14 @@ void runScenario(const Json::Value& sc, Json::Value& out) {
 
   // the file system is quiet from here on: wait for the watcher, run a few ticks, probe
   for (int i = 0; i < 3; i++) {
-    idleOk = waitIdle(wtid, 5000) && idleOk;
+    idleOk = waitIdle(wtid, 15000) && idleOk;
     tick();
   }
-  idleOk = waitIdle(wtid, 5000) && idleOk;
+  idleOk = waitIdle(wtid, 15000) && idleOk;
   out["probe"] = probe();
   // once more after a pause: the converged state must not drift
   std::this_thread::sleep_for(std::chrono::milliseconds(sc.get("settle_ms", 15).asInt64()));
-  idleOk = waitIdle(wtid, 5000) && idleOk;
+  idleOk = waitIdle(wtid, 15000) && idleOk;
   tick();
   out["probe_b"] = probe();
 
